@@ -11,6 +11,7 @@
 #include <cstdlib>
 #include <deque>
 #include <memory>
+#include <string>
 #include <thread>
 #include <vector>
 
@@ -57,7 +58,42 @@ int main(int argc, char **argv) {
     auto notifier = [&] {
         while (!stop.load()) { router.notify(key); router.notify(other); ops++; }
     };
+    // exists()/depth() are operations of the same router: once subscribe(k) has returned and until that subscription is removed
+    // and shrunk away, every exists(k) is true and every depth() is at least levels(k)+1; once the shrink that removes the only
+    // deep branch has returned, depth() is back at 3 (root/a/b).  A wide level (`w/0` … `w/1999`, eternal observers) makes a
+    // depth() walk long enough to overlap other operations; a poller keeps calling depth() and exists().
+    std::atomic<long> staleDepth{0}, staleExists{0};
+    std::vector<USubscription> wide;
+    for (int i = 0; i < 2000; ++i) wide.emplace_back(router.subscribe(RoutingKeyBuilder{"w", std::to_string(i)}.build(), [] {}));
+    auto deepener = [&] {
+        unsigned x = seed * 7919u + 13;
+        while (!stop.load()) {
+            x = x * 1664525u + 1013904223u;
+            int levels = 3 + (x >> 20) % 4;                    // d/x1/…: 3 … 6 levels
+            RoutingKeyBuilder b;
+            b.level("d");
+            for (int i = 1; i < levels; ++i) b.level("x" + std::to_string(i));
+            auto deep = b.build();
+            auto sub = router.subscribe(deep, [] {});
+            if (!router.exists(deep)) staleExists++;
+            if (router.depth() < static_cast<size_t>(levels) + 1) staleDepth++;
+            sub->unsubscribe();
+            RoutingKeyBuilder p;
+            p.level("d");
+            for (int i = 1; i < levels; ++i) p.all();
+            router.shrink(p.build());
+            if (router.exists(deep)) staleExists++;
+            if (router.depth() > 3) staleDepth++;
+            ops++;
+        }
+    };
+    auto poller = [&] {
+        auto probe = RoutingKeyBuilder{"d", "x1", "x2"}.build();
+        while (!stop.load()) { (void) router.depth(); (void) router.exists(probe); ops++; }
+    };
     std::vector<std::thread> ts;
+    ts.emplace_back(deepener);
+    ts.emplace_back(poller);
     for (unsigned i = 0; i < 5; ++i) ts.emplace_back(worker, seed * 31 + i);
     ts.emplace_back(notifier);
     ts.emplace_back(notifier);
@@ -68,6 +104,11 @@ int main(int argc, char **argv) {
     if (violations.load() != 0) {
         std::printf("VIOLATION an observer was invoked after its unsubscribe() had returned (or during a mutation): %ld times in %ld operations\n",
                     violations.load(), ops.load());
+        return 1;
+    }
+    if (staleDepth.load() != 0 || staleExists.load() != 0) {
+        std::printf("VIOLATION depth()/exists() contradicted a subscribe()/shrink() that had already returned: depth %ld times, exists %ld times in %ld operations\n",
+                    staleDepth.load(), staleExists.load(), ops.load());
         return 1;
     }
     std::printf("ok %ld operations\n", ops.load());
